@@ -36,7 +36,11 @@ RULE = ("a case = (script, fault map): the script fixes mode (foreground/daemon,
         "stand-in thread and judges, on the real descriptor, that the helper reads EOF however the session "
         "ends (and that READY follows the helper's STARTED; a helper that exits after GO without STARTED, "
         "with poll() answering 0 as after ECHILD or None-then-status, ends the session); plus random "
-        "double faults (one in the body, one in the finally part); init strings next to the genuine one (every "
+        "double faults (one in the body, one in the finally part); the helper's end of the channel: the real "
+        "firewall.main() reads the dialogue the real FirewallClient wrote for every combination of IPv4/IPv6 "
+        "subnets and name servers, then EOF / HOST lines / a bad line / a cut, with a fault at each of its own "
+        "steps (each family's set-up and restore, hosts file, resolver cache, STARTED write) and pairs of them — "
+        "every family that was set up must have its restore attempted; init strings next to the genuine one (every "
         "single-byte substitution by digits/sign/underscore/blank/CR/LF/TAB/NUL, truncations, other spellings "
         "of the version) each followed by a good ROUTES frame; non-trivial = the run got past ssh.connect; "
         "distinct = distinct canonical input line")
@@ -1430,6 +1434,196 @@ def timed_stream(ctx):
                         real_code_trace=' '.join(ev[-25:]) + ' ' + outcome), limit=9)
 
 
+# ------------------------------------------------------------------ the helper's end of the channel
+
+HELPER_SITES = ['setup6', 'setup4', 'ready', 'flush_start', 'started_write', 'rewrite_hosts',
+                'restore6', 'restore4', 'restore_hosts', 'flush_end']
+HELPER_KINDS = ['os5', 'fatal', 'other']
+AF4, AF6 = 2, 10
+
+
+def client_dialogue(client, fams):
+    """What the real FirewallClient.setup()/start() writes for a session that intercepts the given
+    families (sub4/sub6: subnets, ns4/ns6: name servers)."""
+    class Cap:
+        def __init__(self):
+            self.buf = b''
+
+        def write(self, b):
+            self.buf += bytes(b)
+
+        def flush(self):
+            pass
+
+        def readline(self):
+            return b'STARTED\n'
+
+    class P:
+        def poll(self):
+            return None
+
+    fw = client.FirewallClient.__new__(client.FirewallClient)
+    fw.auto_nets = []
+    fw.pfile = Cap()
+    fw.p = P()
+    fw.argv = ['fw']
+    inc = ([(AF4, '10.1.0.0', 16, 0, 0), (AF4, '192.168.7.0', 24, 80, 443)] if fams['sub4'] else []) + \
+          ([(AF6, 'fd00::', 64, 0, 0)] if fams['sub6'] else [])
+    exc = ([(AF4, '127.0.0.1', 32, 0, 0)] if fams['sub4'] else []) + ([(AF6, '::1', 128, 0, 0)] if fams['sub6'] else [])
+    ns = ([(AF4, '10.1.0.53')] if fams['ns4'] else []) + ([(AF6, 'fd00::53')] if fams['ns6'] else [])
+    v4 = fams['sub4'] or fams['ns4']
+    v6 = fams['sub6'] or fams['ns6']
+    fw.setup(inc, exc, ns, 12300 if v6 else 0, 12300 if v4 else 0, 12299 if fams['ns6'] else 0,
+             12299 if fams['ns4'] else 0, False, None, None, '0x01')
+    fw.start()
+    return fw.pfile.buf
+
+
+def run_helper(case):
+    """Drive the real firewall.main() with the dialogue the real client wrote, a tail, and faults at the
+    helper's own boundary (the method's set-up/restore, the hosts file, the resolver cache, its stdout).
+    Returns the recorded history."""
+    ssnet, client, helpers, ssh, sdnotify, BaseMethod = _mods()
+    import sshuttle.firewall as firewall
+    fams, tail, faults = case['fams'], case['tail'], case['faults']
+    log = []
+    nflush = [0]
+
+    def hit(site):
+        k = faults.get(site)
+        if k:
+            log.append('!%s' % site)
+            raise make_exc(k, helpers)
+
+    class Method:
+        name = 'fake'
+
+        def is_supported(self):
+            return True
+
+        def setup_firewall(self, port, dnsport, nslist, family, subnets, udp, user, group, tmark):
+            log.append('setup%d' % (6 if family == AF6 else 4))
+            hit('setup%d' % (6 if family == AF6 else 4))
+
+        def wait_for_firewall_ready(self, pid):
+            hit('ready')
+            raise NotImplementedError()
+
+        def firewall_command(self, line):
+            return False
+
+        def restore_firewall(self, port, family, udp, user, group):
+            log.append('restore%d' % (6 if family == AF6 else 4))
+            hit('restore%d' % (6 if family == AF6 else 4))
+
+    class Out:
+        def write(self, b):
+            if bytes(b).startswith(b'STARTED'):
+                hit('started_write')
+                log.append('STARTED')
+            return len(b)
+
+        def flush(self):
+            pass
+
+    def rewrite(hostmap, port):
+        log.append('hosts+')
+        hit('rewrite_hosts')
+
+    def restore_hosts(hostmap, port):
+        log.append('hosts-')
+        hit('restore_hosts')
+
+    def flush_dns():
+        nflush[0] += 1
+        hit('flush_start' if nflush[0] == 1 else 'flush_end')
+
+    data = client_dialogue(client, fams)
+    if tail == 'eof':
+        pass
+    elif tail == 'host-eof':
+        data += b'HOST alpha,10.0.0.1\nHOST beta,10.0.0.2\n'
+    elif tail == 'badcmd':
+        data += b'HOST alpha,10.0.0.1\nFROBNICATE\n'
+    elif tail == 'cut':
+        data = data[:data.rindex(b'GO ')]
+    saved = (firewall.setup_daemon, firewall.get_method, firewall.rewrite_etc_hosts, firewall.restore_etc_hosts,
+             firewall.flush_systemd_dns_cache, helpers.logprefix, helpers.verbose, sys.stderr)
+    firewall.setup_daemon = lambda: (io.BytesIO(data), Out())
+    firewall.get_method = lambda name: Method()
+    firewall.rewrite_etc_hosts = rewrite
+    firewall.restore_etc_hosts = restore_hosts
+    firewall.flush_systemd_dns_cache = flush_dns
+    helpers.verbose = 0
+    sys.stderr = io.StringIO()
+    try:
+        try:
+            firewall.main('fake', False)
+            log.append('ret')
+        except BaseException as e:  # noqa
+            log.append('exc=' + kind_of(e, helpers))
+    finally:
+        (firewall.setup_daemon, firewall.get_method, firewall.rewrite_etc_hosts, firewall.restore_etc_hosts,
+         firewall.flush_systemd_dns_cache, helpers.logprefix, helpers.verbose, sys.stderr) = saved
+    return log
+
+
+def oracle_helper(case, log):
+    """When the control channel ends (EOF, a bad line, a failing step) the helper takes down the
+    interception of EVERY family it started to set up — a failure while restoring one family must not
+    leave the other one installed — and gives the hosts file back if it touched it."""
+    bad = []
+    for fam in (4, 6):
+        s_, r_ = 'setup%d' % fam, 'restore%d' % fam
+        if s_ in log and not any(e == r_ for e in log[log.index(s_):]):
+            other = 6 if fam == 4 else 4
+            bad.append(('C12:helper-end:family-not-restored',
+                        'after the control channel ended, restore_firewall() is attempted for every family that was set up',
+                        'IPv%d was set up but its restore was never attempted (faults %r; IPv%d restore %s); history: %s'
+                        % (fam, case['faults'], other,
+                           'failed' if '!restore%d' % other in log else 'n/a', ' '.join(log))))
+    if 'hosts+' in log and 'hosts-' not in log[log.index('hosts+'):]:
+        bad.append(('C12:helper-end:hosts-not-restored', 'the hosts file is given back when it was touched',
+                    'history: %s' % ' '.join(log)))
+    return bad
+
+
+def helper_cases(ctx):
+    out = []
+    combos = [dict(sub4=a, sub6=b, ns4=c, ns6=d) for a in (0, 1) for b in (0, 1) for c in (0, 1) for d in (0, 1)
+              if a or b or c or d]
+    for fams in combos:
+        for tail in ('eof', 'host-eof', 'badcmd', 'cut'):
+            out.append(dict(fams=fams, tail=tail, faults={}))
+            for site in HELPER_SITES:
+                for kind in (HELPER_KINDS if ctx.thorough or tail == 'eof' else HELPER_KINDS[:1]):
+                    out.append(dict(fams=fams, tail=tail, faults={site: kind}))
+            # two faults: each family's restore together with another shutdown step
+            for a, b in (('restore6', 'restore_hosts'), ('restore4', 'flush_end'), ('restore6', 'restore4'),
+                         ('setup4', 'restore6'), ('setup6', 'restore4')):
+                out.append(dict(fams=fams, tail=tail, faults={a: 'os5', b: 'other'}))
+    return out
+
+
+def helper_stream(ctx):
+    """The other end of `PfileClose`: the real firewall.main() reads the real client's dialogue, then EOF."""
+    nbad = 0
+    for case in helper_cases(ctx):
+        log = run_helper(case)
+        ctx.count()
+        ctx.hist('helper-end')
+        dual = (case['fams']['sub4'] or case['fams']['ns4']) and (case['fams']['sub6'] or case['fams']['ns6'])
+        if dual:
+            ctx.hist('helper-end:dual-family')
+        ctx.mark(('helper', repr(sorted(case['fams'].items())), case['tail'], sorted(case['faults'].items())),
+                 nontrivial=True)
+        for key, exp, obs in oracle_helper(case, log):
+            nbad += 1
+            if nbad <= 6:
+                ctx.violation(key, case=dict(helper_end=True, **case), expected=exp, observed=obs, kind='faults')
+    ctx.sample(dict(stream='helper end of the channel', case=case, real_code_history=' '.join(log)), limit=10)
+
+
 def nfds():
     return len(os.listdir('/proc/self/fd'))
 
@@ -1467,6 +1661,7 @@ def run(ctx):
     env_probe(ctx)
     realfw_stream(ctx)
     timed_stream(ctx)
+    helper_stream(ctx)
     cases = gen_cases(ctx)
     for c in cases:
         ctx.mark(c.line, nontrivial=(0 not in c.faults))
@@ -1482,6 +1677,10 @@ def run(ctx):
 
 def replay(ctx, rep):
     case = rep['case']
+    if case.get('helper_end'):
+        log = run_helper(case)
+        bad = oracle_helper(case, log)
+        return bool(bad), 'history: %s; oracle: %s' % (' '.join(log), '; '.join(b[0] for b in bad) or 'silent')
     if case.get('probe'):
         c2 = common.Ctx('C12', 'quick', 0)
         env_probe(c2)
